@@ -154,6 +154,35 @@ by new; model bytes = real bytes (`save_incr`), model load = real load. Non-triv
                         }
                         Err(e) => { c.oracle_fail("incr:reload", &format!("step {}: incremental file does not load: {:?}", step, e), json!({"file": hex(&out)})); break; }
                     }
+                    // the SAME value edited further and saved again without a reload (its trailer carries the bookkeeping of the
+                    // save just made, max_id was raised by a cross-reference-stream save): still one appended revision on top of
+                    // `bytes`, holding every object of new_document
+                    if (i + step as u64) % 2 == 0 {
+                        let mut exp2 = expected.clone();
+                        for _ in 0..1 + r.usize(3) { let o = gen_obj(&mut r, 3); let id = inc.new_document.add_object(o.clone()); exp2.objects.insert(id, o); c.count("incr.resave_added"); }
+                        let nd = &inc.new_document;
+                        let req2 = format!("save_incr {} {} {} {} {} {} {}", kind, nd.max_id, hex_tok(nd.version.as_bytes()), hex_tok(&nd.binary_mark), hex_tok(&bytes),
+                            show_obj(&Object::Dictionary(nd.trailer.clone())), show_objects(nd.objects.iter()));
+                        let mut out2 = Vec::new();
+                        match guard(|| inc.save_to(&mut out2)) {
+                            Ok(Ok(())) => {
+                                c.corr(req2, format!("ok {} {} {}", hex_tok(&out2), inc.new_document.max_id, show_obj(&Object::Dictionary(inc.new_document.trailer.clone()))));
+                                if !out2.starts_with(&bytes) { c.oracle_fail("incr:prefix", "second save of the same value: previous bytes are not an unchanged prefix", json!({"step": step})); }
+                                if let Err(rule) = crate::strict::strict_load(&out2) { c.oracle_fail(&format!("incr:strict-reject:{}", rule.split(' ').take(3).collect::<Vec<_>>().join("-")), &format!("second save of the same value: strict reader rejects the file: {}", rule), json!({"file": hex(&out2)})); }
+                                c.corr(format!("load {}", hex_tok(&out2)), load_reply(&out2));
+                                match Document::load_mem(&out2) {
+                                    Ok(back) => {
+                                        let strip = |d: &Document| { let mut d = d.clone(); d.objects.retain(|_, o| !matches!(o, Object::Stream(s) if s.dict.has_type(b"XRef"))); d };
+                                        if let Some(diff) = compare_docs(&strip(&exp2), &strip(&back), false) { c.oracle_fail("incr:content", &format!("step {}, second save of the same value after more edits: {}", step, diff), json!({"file": hex(&out2)})); }
+                                    }
+                                    Err(e) => c.oracle_fail("incr:reload", &format!("step {}: second save of the same value does not load: {:?}", step, e), json!({"file": hex(&out2)})),
+                                }
+                                c.count("incr.resaved_same_value");
+                            }
+                            Ok(Err(_)) => c.count("incr.resave_error"),
+                            Err((site, msg)) => c.oracle_fail(&format!("panic@{}", site), &msg, json!({})),
+                        }
+                    }
                     bytes = out;
                 }
                 Ok(Err(_)) => { c.count("incr.save_error"); break; }
